@@ -76,7 +76,7 @@ def decode_dest(code_hex, at):
         return int.from_bytes(b[2:10], "little")
     return None
 
-EXPECT = {"raw": 1000, "unc": 1000, "clo": 2000, "fake": 3000}
+EXPECT = {"raw": 1000, "unc": 1000, "clo": 2000, "fake": 3000, "rawalias": 1000}
 SITE_N = {0: 0, 1: 1, 2: 2, 3: 3, 4: 1, 5: 2, 6: None, 7: 7}
 SITE_WHEN = {0: True, 1: True, 2: True, 3: True, 4: True, 5: False, 6: True, 7: False}
 
@@ -124,7 +124,7 @@ def translate(h, lifetimes):
                 latest[t[1]] = None
                 f = addr[t[1]]
                 if t[2] == "bool": mo.append(f"I:{f:x}:bool:{t[3]}")
-                elif t[2] in ("raw", "unc"): mo.append(f"I:{f:x}:exec:{addr['fk' + t[3]]:x}")
+                elif t[2] in ("raw", "unc", "rawalias"): mo.append(f"I:{f:x}:exec:{addr['fk' + t[3]]:x}")
                 elif t[2] == "rawat": mo.append(f"I:{f:x}:exec:{addr[t[3]]:x}")
                 else:
                     name = f"z{t[2]}{t[3]}"
